@@ -105,6 +105,11 @@ func (g *gen) offsets(data []byte, quick int) []int {
 // and the complete file comes last. Descending (rule files, where an empty file legitimately unloads
 // the rule set): the complete file comes first and every step cuts the file shorter.
 func (g *gen) sweep(list *[]inputSpec, kind, base string, quick int, meta map[string]string, desc bool) {
+	g.sweepWith(list, kind, base, quick, meta, desc, nil)
+}
+
+// sweepWith: the same, with offsets that are swept in any tier in addition to the chosen ones.
+func (g *gen) sweepWith(list *[]inputSpec, kind, base string, quick int, meta map[string]string, desc bool, extra []int) {
 	data := g.corpus[base]
 	m := map[string]string{"sentinel": "1", "valid": "1"}
 	for k, v := range meta {
@@ -112,6 +117,19 @@ func (g *gen) sweep(list *[]inputSpec, kind, base string, quick int, meta map[st
 	}
 	full := inputSpec{Kind: kind, Class: "valid", Name: "full(" + base + ")", Base: base, Meta: m}
 	offs := g.offsets(data, quick)
+	if len(extra) > 0 {
+		set := map[int]bool{}
+		for _, o := range offs {
+			set[o] = true
+		}
+		for _, o := range extra {
+			if o >= 0 && o < len(data) && !set[o] {
+				set[o] = true
+				offs = append(offs, o)
+			}
+		}
+		sort.Ints(offs)
+	}
 	if desc {
 		delete(m, "sentinel")
 		g.add(list, full)
@@ -268,6 +286,11 @@ func (g *gen) keyStoreLane(kind string, bases []string, withInvalid bool) []inpu
 	}
 	for _, ri := range g.invalidKeyStores() {
 		g.add(&list, inputSpec{Kind: kind, Class: ri.class, Name: ri.name, Data: ri.data, Meta: map[string]string{"sentinel": "1"}})
+	}
+	// the notification mechanism reports an error; a further valid change (and its sentinel) must still be picked up
+	for _, we := range []string{"event-overflow", "read-error"} {
+		g.add(&list, inputSpec{Kind: kind, Class: "watcher-error", Name: "watcher-error(" + we + ")-then-valid-change", Base: "CK:ec_prime256v1",
+			Meta: map[string]string{"mode": "watcher-error", "error": we, "sentinel": "1"}})
 	}
 	g.add(&list, inputSpec{Kind: kind, Class: "remove-recreate", Name: "removed-and-recreated", Data: cat(certPEM(selfSigned("ec_prime256v1", "rr0")), keyPEM("ec_prime256v1", "rr0")), Meta: map[string]string{"mode": "remove-recreate"}})
 	return list
